@@ -143,6 +143,11 @@ func (c *ShipConnection) ApprovePendingHandshake() {
 	c.inputMux.Lock()
 	defer c.inputMux.Unlock()
 
+	// the connection may have ended meanwhile, there is nothing to decide any more then
+	if isClosed, _ := c.dataWriter.IsDataConnectionClosed(); isClosed {
+		return
+	}
+
 	state := c.getState()
 	if state != model.SmeHelloStatePendingListen {
 		// TODO: what to do if the state is different?
@@ -173,6 +178,11 @@ func (c *ShipConnection) AbortPendingHandshake() {
 	// see ApprovePendingHandshake
 	c.inputMux.Lock()
 	defer c.inputMux.Unlock()
+
+	// see ApprovePendingHandshake
+	if isClosed, _ := c.dataWriter.IsDataConnectionClosed(); isClosed {
+		return
+	}
 
 	state := c.getState()
 	if state != model.SmeHelloStatePendingListen && state != model.SmeHelloStateReadyListen {
